@@ -1004,6 +1004,22 @@ fn dfs_fixed(ctx: &Ctx, n: usize, first: usize, depth: usize, alpha: &[Act], cou
     rec(ctx, n, first, &b, &q, first, 500, depth, alpha, &mut path, count);
 }
 
+/// soak probe: one long deterministic history on one real buffer (no relabelling), cycling through
+/// the whole alphabet; catches behaviour that depends on how long the buffer has been in use
+fn soak(sys: &'static str, cap: usize, steps: usize) -> Option<(Case, Mismatch)> {
+    let alpha = if sys == "bounded" { bounded_alphabet(cap) } else { fixed_alphabet(cap) };
+    let mut acts = Vec::with_capacity(steps);
+    for t in 0..steps {
+        // pushes dominate so that the buffer keeps turning over
+        acts.push(if t % 3 != 2 { Act::Push } else { alpha[(t * 7 + t / 5) % alpha.len()] });
+    }
+    let case = Case { sys, kind: Kind::Vec, cap, start: 0, len: if sys == "bounded" { 0 } else { cap }, acts };
+    match case.run() {
+        Ok(_) => None,
+        Err(m) => Some((case, m)),
+    }
+}
+
 fn main() {
     let ctx: &'static Ctx = Ctx::leak("C06", "release");
     if let Some(v) = ctx.replay_case() {
@@ -1124,6 +1140,22 @@ fn main() {
     ctx.set("unmerged_histories", json!(hist));
     ctx.set("unmerged_steps", json!(steps));
     ctx.set("unmerged_depth", json!(ddepth));
+    // soak probes
+    let soak_steps = ctx.tier.pick(20_000, 200_000);
+    for sys in ["bounded", "fixed"] {
+        for cap in [1usize, 3, 4, 7, 64] {
+            guard::enter(&json!({"sys":sys,"kind":"vec","cap":cap,"note":"soak"}).to_string());
+            ctx.add_evals(soak_steps as u64);
+            ctx.add_transitions(soak_steps as u64);
+            if let Some((case, m)) = soak(sys, cap, soak_steps) {
+                // keep the artefact small: the failing history is deterministic in (sys, cap, steps)
+                let mut cj = case.to_json();
+                cj["actions"] = json!(case.acts.iter().map(|a| a.name()).collect::<Vec<_>>());
+                ctx.violation(&m.key, cj, format!("soak run of {soak_steps} operations on a {sys} buffer of capacity {cap}: {}", m.msg), None);
+            }
+        }
+    }
+    ctx.rule(&format!("soak probes: one deterministic history of {soak_steps} operations (pushes interleaved with the whole alphabet) per buffer kind and capacity in 1,3,4,7,64 on a single real buffer, same reference queue (single executions, labelled)"));
     ctx.set("exhaustive", json!(true));
     ctx.set("exhaustive_scope", json!(format!("every raw state x every action for capacities 1..={maxcap}; capacities above are not explored")));
     ctx.sample(json!({"sys":"bounded","kind":"vec","cap":2,"start":1,"len":1,"actions":["push","push","get:0","pop","iter"],"meaning":"one unmerged history"}));
